@@ -63,6 +63,7 @@ class Fn:
         self.kind = kind            # 'accumulate' | 'cdf'
         self.n = 0
         self.skipped = []
+        self.reassigned = set()
 
     def fresh(self, b):
         self.n += 1
@@ -313,7 +314,8 @@ class Fn:
                     nv = self.fresh(t.id)
                     return f'(let {nv} := gather (o0 OP) {l[0]} {p[0]} in\n{nxt(dict(env, **{t.id: (nv, "tlist")}))})'
             e = self.expr(val, env)
-            ty = {'lit': 'Q'}.get(e[1], e[1]) if t.id in ('u_prev',) else e[1]
+            # a name initialised with an integer literal and reassigned later (`u_prev = 0 ... u_prev = u`) holds a time
+            ty = {'lit': 'Q'}.get(e[1], e[1]) if t.id in self.reassigned else e[1]
             co = f'(inject_Z {e[0]})' if (e[1] == 'lit' and ty == 'Q') else e[0]
             if e[1] == 'endtime':         # a finite end time read as a number (only under a successful `u > end_time`)
                 ty, co = 'Q', f'(end_or0 {e[0]})'
@@ -391,6 +393,18 @@ Section Gen.
 '''
 
 
+def multi_assigned(f):
+    """names bound by more than one assignment statement of the function"""
+    cnt = {}
+    for n in ast.walk(f):
+        if isinstance(n, (ast.Assign, ast.AugAssign, ast.AnnAssign)):
+            for t in (n.targets if isinstance(n, ast.Assign) else [n.target]):
+                for x in (t.elts if isinstance(t, ast.Tuple) else [t]):
+                    if isinstance(x, ast.Name):
+                        cnt[x.id] = cnt.get(x.id, 0) + 1
+    return {k for k, v in cnt.items() if v > 1}
+
+
 def get_method(tree, cname, mname):
     for c in tree.body:
         if isinstance(c, ast.ClassDef) and c.name == cname:
@@ -426,6 +440,7 @@ def translate(src_text):
     if [a.arg for a in f.args.args] != ['self', 'k', 'end_times', 'rewards']:
         fail(f, '_accumulate: unexpected signature')
     fn = Fn('accumulate')
+    fn.reassigned = multi_assigned(f)
     env = {'k': ('k', 'nat'), 'end_times': ('end_times', 'qlist'), 'rewards': ('rewards', 'rewards_arg'),
            '__stop__': lambda e: '[]'}
     term = fn.block(f.body, env, lambda e: fail(f, '_accumulate can fall off its end'))
@@ -437,6 +452,7 @@ def translate(src_text):
     if [a.arg for a in f.args.args] != ['self', 't']:
         fail(f, 'cdf: unexpected signature')
     fn = Fn('cdf')
+    fn.reassigned = multi_assigned(f)
     env = {'t': ('t', 'qlist'), '__stop__': lambda e: '[]'}
     term = fn.block(f.body, env, lambda e: fail(f, 'cdf can fall off its end'))
     out.append('  (* TreeHeightDistribution.cdf *)\n  Definition TreeHeightDistribution_cdf (n_states : nat) (epochs0 : list (epoch_t (T:=T))) (alpha e : vec (T:=T))\n'
